@@ -112,6 +112,49 @@ impl Monitor for C09 {
         c2
     }
     fn check(&self, c: &Case, obs: &mut Obs) -> Outcome {
+        if c.aux.as_deref() == Some("spellings") {
+            // oracle-free: [c], [c-c], [c-] and [cc] are the same set under every flag, whatever the
+            // case relations of c are (c is the whole pattern text here)
+            let ch = match c.pattern.chars().next() {
+                Some(x) => x,
+                None => return Outcome::Inconclusive("empty"),
+            };
+            let lit = Node::Char(ch).render();
+            let spellings = [format!("^[{}]$", lit), format!("^[{}-{}]$", lit, lit), format!("^[{}-]$", lit), format!("^[{}{}]$", lit, lit), format!("^[^{}]$", lit)];
+            let mut res: Vec<Vec<Option<bool>>> = vec![];
+            let inputs: Vec<char> = c.input.chars().collect();
+            for sp in &spellings {
+                let re = match api(engine::compile(sp, &c.flags, c.dialect), "compile") {
+                    Ok(Ok(r)) => r,
+                    Ok(Err(e)) => return Outcome::Violated(vec![Finding::new("valid_class_rejected", format!("Err({}) for {:?}", e.name(), sp), "Ok")]),
+                    Err(o) => return o,
+                };
+                let mut row = vec![];
+                let mut buf = String::new();
+                for x in &inputs {
+                    buf.clear();
+                    buf.push(*x);
+                    row.push(engine::is_match(&re, &buf).ok());
+                }
+                res.push(row);
+            }
+            for (k, x) in inputs.iter().enumerate() {
+                let base = res[0][k];
+                for (j, sp) in spellings.iter().enumerate().take(4).skip(1) {
+                    if res[j][k] != base && *x != '-' {
+                        return Outcome::Violated(vec![Finding::new("class_spellings_differ", format!("{:?} on U+{:04X}: {:?}", sp, *x as u32, res[j][k]), format!("{:?}: {:?}", spellings[0], base))]);
+                    }
+                }
+                if let (Some(a), Some(b)) = (base, res[4][k]) {
+                    if a == b {
+                        return Outcome::Violated(vec![Finding::new("class_and_complement_agree", format!("{:?} and {:?} on U+{:04X}: both {}", spellings[0], spellings[4], *x as u32, a), "complementary answers")]);
+                    }
+                }
+            }
+            obs.count("class_spellings_compared");
+            obs.nontrivial(c.key());
+            return Outcome::Held;
+        }
         let ce = match ast_of(c) {
             Some(Node::Class(ce)) => ce,
             _ => return Outcome::Inconclusive("not_a_class_expression"),
@@ -290,6 +333,30 @@ impl Monitor for C09 {
                 c.aux = Some(format!("{};rawhy", c.aux.unwrap()));
             }
             emit(c);
+        }
+        // single characters with unusual case relations (title-case digraphs, Greek with iota
+        // subscript, Kelvin, long s, final sigma ...) under flag i: every spelling of the one-member
+        // class must agree on the character and on its case variants
+        if w.shard == 0 || !w.quick() {
+            let specials: Vec<char> = ['\u{1C4}', '\u{1C5}', '\u{1C6}', '\u{1C7}', '\u{1C8}', '\u{1C9}', '\u{1CA}', '\u{1CB}', '\u{1CC}', '\u{1F1}', '\u{1F2}', '\u{1F3}', '\u{1F80}', '\u{1F88}', '\u{1F8F}', '\u{1F98}', '\u{1FA8}', '\u{1FBC}', '\u{1FB3}', '\u{1FCC}', '\u{1FC3}', '\u{1FFC}', '\u{1FF3}', 'k', 'K', '\u{212A}', 's', 'S', '\u{17F}', '\u{3C3}', '\u{3C2}', '\u{3A3}', '\u{3C9}', '\u{3A9}', '\u{2126}', '\u{E5}', '\u{C5}', '\u{212B}', '\u{DF}', '\u{1E9E}', 'a', 'Z', '\u{10400}', '\u{10428}'].to_vec();
+            for ch in &specials {
+                let mut inp: Vec<char> = vec![*ch];
+                inp.extend(ch.to_lowercase());
+                inp.extend(ch.to_uppercase());
+                for other in &specials {
+                    if other.to_lowercase().eq(ch.to_lowercase()) || other.to_uppercase().eq(ch.to_uppercase()) {
+                        inp.push(*other);
+                    }
+                }
+                inp.push('x');
+                inp.sort();
+                inp.dedup();
+                for fl in ["i", "", "ix"] {
+                    let mut c = Case::raw(&ch.to_string(), fl, &inp.iter().collect::<String>());
+                    c.aux = Some("spellings".to_string());
+                    emit(c);
+                }
+            }
         }
         J::obj().with("class_expressions_this_shard", J::u(n)).with("scalar_values_per_class", J::s(if w.quick() { "U+0000-U+024F + boundaries +-1 + 2,500 sampled (about 3,200)" } else { "all 1,112,064" })).with("exhaustive_over_scalar_values", J::Bool(!w.quick()))
     }
